@@ -251,3 +251,155 @@ pub fn canonical(t: &J) -> J {
     }
     t
 }
+
+// -------------------------------------------------------------------------------------------------
+// The same tree through the INFORMATION SET accessors of xml_info (the third view: C01 names the
+// xml_info trait accessors as observation points).  Names come from HasQName (prefix + local name),
+// attributes from Element::attributes() (namespace attributes are a separate property there),
+// character data from Character::character_code / UnexpandedEntityReference::value, notations and
+// unparsed entities from Document::notations() / unparsed_entities().
+
+fn qn<T: xml_info::HasQName>(v: &T) -> String {
+    match v.prefix() {
+        Some(p) => format!("{}:{}", p, v.local_name()),
+        None => v.local_name().to_string(),
+    }
+}
+
+struct InfoWalk {
+    nodes: Vec<J>,
+    errs: Vec<String>,
+}
+
+impl InfoWalk {
+    fn children(&mut self, kids: Vec<std::rc::Rc<xml_info::XmlItem>>, parent: usize) {
+        use xml_info::{Attribute as A, Character as C, Comment as Cm, Element as E, ProcessingInstruction as P};
+        let mut run: Option<String> = None;
+        for kid in kids {
+            let chars: Option<String> = if let Some(t) = kid.as_text() {
+                Some(t.borrow().character_code().to_string())
+            } else if let Some(t) = kid.as_cdata() {
+                Some(t.borrow().character_code().to_string())
+            } else if let Some(t) = kid.as_char_reference() {
+                Some(t.borrow().character_code().to_string())
+            } else if let Some(t) = kid.as_unexpanded() {
+                match t.borrow().value() {
+                    Ok(v) => Some(v),
+                    Err(e) => {
+                        self.errs.push(format!("entity value: {}", e));
+                        Some(String::new())
+                    }
+                }
+            } else {
+                None
+            };
+            if let Some(c) = chars {
+                match run.as_mut() {
+                    Some(r) => r.push_str(&c),
+                    None => run = Some(c),
+                }
+                continue;
+            }
+            self.flush(&mut run, parent);
+            if let Some(e) = kid.as_element() {
+                let e = e.borrow();
+                let mut attrs = vec![];
+                for a in e.attributes().iter() {
+                    let a = a.borrow();
+                    match a.normalized_value() {
+                        Ok(v) => attrs.push(json!({"n": cps(&qn(&*a)), "v": cps(&v), "spec": a.specified()})),
+                        Err(err) => {
+                            self.errs.push(format!("attr value: {}", err));
+                            attrs.push(json!({"n": cps(&qn(&*a)), "v": [], "spec": a.specified(), "err": true}))
+                        }
+                    }
+                }
+                self.nodes
+                    .push(json!({"k": "elem", "p": parent, "n": cps(&qn(&*e)), "v": [], "a": attrs}));
+                let me = self.nodes.len();
+                let kids: Vec<_> = e.children().iter().collect();
+                drop(e);
+                self.children(kids, me);
+            } else if let Some(c) = kid.as_comment() {
+                self.nodes
+                    .push(json!({"k": "comment", "p": parent, "n": [], "v": cps(c.borrow().comment()), "a": []}));
+            } else if let Some(p) = kid.as_pi() {
+                let p = p.borrow();
+                self.nodes
+                    .push(json!({"k": "pi", "p": parent, "n": cps(p.target()), "v": cps(p.content()), "a": []}));
+            } else if kid.as_document_type().is_some() {
+            } else {
+                self.errs.push("unexpected item".to_string());
+            }
+        }
+        self.flush(&mut run, parent);
+    }
+
+    fn flush(&mut self, run: &mut Option<String>, parent: usize) {
+        if let Some(s) = run.take() {
+            if !s.is_empty() {
+                self.nodes
+                    .push(json!({"k": "chars", "p": parent, "n": [], "v": cps(&s), "a": []}));
+            }
+        }
+    }
+}
+
+pub fn project_info(doc: &xml_info::XmlNode<xml_info::XmlDocument>) -> J {
+    use xml_info::{Document as D, DocumentTypeDeclaration as T, Notation as N, ProcessingInstruction as P, UnparsedEntity as U};
+    let d = doc.borrow();
+    let mut w = InfoWalk { nodes: vec![], errs: vec![] };
+    let top: Vec<_> = d.children().iter().collect();
+    let mut pos = 0usize;
+    let mut seen = 0usize;
+    for k in &top {
+        if k.as_document_type().is_some() {
+            pos = seen;
+        } else {
+            seen += 1;
+        }
+    }
+    w.children(top, 0);
+    let mut xmldecl = json!({"present": false, "ver": [], "enc": [], "sa": "none"});
+    if let Some(v) = d.version() {
+        xmldecl = json!({"present": true, "ver": cps(v), "enc": cps(d.character_encoding_scheme()),
+                         "sa": match d.standalone() { Some(true) => "yes", Some(false) => "no", None => "none" }});
+    }
+    let mut doctype = json!({"present": false, "n": [], "ext": "none", "pub": [], "sys": [], "pos": 0,
+                             "uents": [], "nots": [], "pis": []});
+    if let Some(decl) = d.document_declaration() {
+        let decl = decl.borrow();
+        let p = decl.public_identifier();
+        let s = decl.system_identifier();
+        let mut pis = vec![];
+        for pi in decl.children().iter() {
+            let pi = pi.borrow();
+            pis.push(json!({"n": cps(pi.target()), "v": cps(pi.content())}));
+        }
+        let mut uents = vec![];
+        for u in d.unparsed_entities().iter() {
+            let u = u.borrow();
+            let (haspub, pu) = opt(u.public_identifier().map(|v| v.to_string()));
+            uents.push(json!({"n": cps(u.name()), "pub": pu, "haspub": haspub, "sys": cps(u.system_identifier()),
+                              "ndata": cps(u.notation_name())}));
+        }
+        let mut nots = vec![];
+        if let Some(ns) = d.notations() {
+            for n in ns.iter() {
+                let n = n.borrow();
+                let (haspub, pu) = opt(n.public_identifier().map(|v| v.to_string()));
+                let (hassys, sy) = opt(n.system_identifier().map(|v| v.to_string()));
+                nots.push(json!({"n": cps(n.name()), "pub": pu, "haspub": haspub, "sys": sy, "hassys": hassys}));
+            }
+        }
+        doctype = json!({"present": true, "n": cps(&qn(&*decl)),
+                         "ext": if p.is_some() { "public" } else if s.is_some() { "system" } else { "none" },
+                         "pub": cps(p.unwrap_or_default()), "sys": cps(s.unwrap_or_default()), "pos": pos,
+                         "uents": uents, "nots": nots, "pis": pis});
+    }
+    let mut out = json!({"xmldecl": xmldecl, "doctype": doctype, "nodes": w.nodes});
+    if !w.errs.is_empty() {
+        out["errs"] = json!(w.errs);
+    }
+    out
+}
